@@ -207,3 +207,9 @@ def run(ctx, led):
     from . import C07 as _C07b
     run_rule(led, "B9", "a permanent nogood (blocking clause) is stored in its preprocessed form (shared with C07-J10)", _C07b.j10, ctx)
     run_rule(led, "B10", "every solve starts from exactly the assumptions it was given — the iterator's solves from none (shared with C05-A3)", shared.assumptions_overwritten, ctx)
+    from . import C10 as _C10
+
+    def _b11(led_, rid_, ctx_):
+        _C10.t_boundary(led_, rid_, ctx_, _C10.explore(ctx_.lib)) if hasattr(_C10, "t_boundary") else None
+    if hasattr(_C10, "t_boundary"):
+        run_rule(led, "B11", "every API function returns with the solver in a usable root state, so iteration after an assumption query starts from the model (shared with C10-T2/T3)", _b11, ctx)
